@@ -1,68 +1,54 @@
 #!/usr/bin/env python3
-"""Mutation audit driver: run.py <PROP> <repo worktree> <verif copy> <mutations.json> <out.jsonl>"""
-import sys, json, subprocess, os, time
-prop, repo, vcopy, mfile, outp = sys.argv[1:6]
-muts = json.load(open(mfile))
+"""run.py <verif-dir> <worktree> <results.jsonl> [--dry] [ids...]   apply each mutation, run bin/check, record"""
+import sys, os, subprocess, json, re, time
+sys.path.insert(0, os.path.dirname(os.path.abspath(__file__)))
+import importlib, muts
+verif, wt, out = sys.argv[1], sys.argv[2], sys.argv[3]
+dry = "--dry" in sys.argv
+ids = [a for a in sys.argv[4:] if not a.startswith("--")]
 done = set()
-if os.path.exists(outp):
-    for l in open(outp):
-        done.add(json.loads(l)["id"])
-H = os.path.join(vcopy, "harness")
-def sh(cmd, cwd=None, timeout=1500):
-    p = subprocess.run(cmd, cwd=cwd, shell=True, stdout=subprocess.PIPE, stderr=subprocess.STDOUT, text=True, timeout=timeout)
+if os.path.exists(out) and not dry:
+    for l in open(out):
+        try: done.add(json.loads(l)["id"])
+        except Exception: pass
+
+def sh(cmd, cwd=None, env=None, timeout=3600):
+    e = dict(os.environ); e.update(env or {})
+    p = subprocess.run(cmd, cwd=cwd, shell=True, stdout=subprocess.PIPE, stderr=subprocess.STDOUT, text=True, env=e, timeout=timeout)
     return p.returncode, p.stdout
-for m in muts:
-    if m["id"] in done: continue
-    sh("git checkout -q .", cwd=repo)
-    path = os.path.join(repo, m["file"])
+
+for mu in muts.M:
+    if ids and mu["id"] not in ids: continue
+    if mu["id"] in done: continue
+    path = os.path.join(wt, mu["file"])
+    sh("git checkout -q .", cwd=wt)
     src = open(path).read()
-    n = src.count(m["old"])
-    occ = m.get("occ", 0)
-    rec = {"id": m["id"], "desc": m["desc"], "file": m["file"]}
-    if n == 0 or occ >= n or (n > 1 and "occ" not in m):
-        rec["verdict"] = f"NOT-APPLIED (old string found {n} times)"
-        open(outp, "a").write(json.dumps(rec) + "\n"); continue
-    idx = -1
-    for _ in range(occ + 1):
-        idx = src.index(m["old"], idx + 1)
-    src = src[:idx] + m["new"] + src[idx + len(m["old"]):]
-    open(path, "w").write(src)
+    n = src.count(mu["old"])
+    if n != 1:
+        print(mu["id"], "PATTERN", n);
+        if not dry:
+            open(out, "a").write(json.dumps({"id": mu["id"], "note": mu["note"], "status": "pattern-not-unique:%d" % n}) + "\n")
+        continue
+    if dry:
+        print(mu["id"], "ok"); continue
+    open(path, "w").write(src.replace(mu["old"], mu["new"]))
+    res = {"id": mu["id"], "note": mu["note"], "file": mu["file"], "checks": {}}
     t0 = time.time()
-    rc, out = sh("cargo build --offline --bin harness > /tmp/audit_build_%s.log 2>&1; rc=$?; grep -E '^error' -A6 /tmp/audit_build_%s.log | head -20; exit $rc" % (prop, prop), cwd=H)
-    if rc != 0:
-        rec["verdict"] = "DOES-NOT-COMPILE"; rec["detail"] = out[:400]
-        open(outp, "a").write(json.dumps(rec) + "\n"); continue
-    # translator
-    rc, out = sh(f"python3 translate/gen.py --repo {repo} --out /tmp/audit_gen_{prop} > /dev/null 2>/tmp/audit_gen_{prop}.err; echo rc=$?", cwd=vcopy)
-    rec["translator"] = "fails-closed" if "rc=0" not in out else "ok"
-    if rec["translator"] == "ok":
-        rc2, d = sh(f"diff -rq /tmp/audit_gen_{prop} lean/VlsModel/Gen | grep -v 'Only in lean' | head -3", cwd=vcopy)
-        if d.strip(): rec["translator"] = "generated-table-changed"
-    rj = f"/tmp/audit_{prop}.json"
-    if os.path.exists(rj): os.remove(rj)
-    try:
-        rc, out = sh(f"./target/debug/harness {prop} --model-bin ../lean/.lake/build/bin/vlsmodel --out {rj}", cwd=H, timeout=1500)
-    except subprocess.TimeoutExpired:
-        rc, out = 124, "timeout"
-    if not os.path.exists(rj):
-        rec["verdict"] = "HARNESS-CRASH"; rec["detail"] = out[-300:]
-    else:
-        reps = json.load(open(rj))
-        kinds = {}; dis = 0; first = None
-        for r in reps:
-            dis += len(r["disagreements"])
-            for v in r["violations"]:
-                kinds[v["kind"]] = kinds.get(v["kind"], 0) + 1
-                if first is None: first = {"group": r["extra"]["group"], "kind": v["kind"], "ops": v["ops"], "desc": v["desc"][:200]}
-        rec["violations"] = kinds; rec["disagreements"] = dis; rec["replay"] = first
-        if kinds: rec["verdict"] = "CAUGHT-REPLAY"
-        elif dis or rec["translator"] != "ok": rec["verdict"] = "CAUGHT-BREAK-ONLY"
-        else: rec["verdict"] = "MISSED"
-        if dis and not kinds:
-            for r in reps:
-                if r["disagreements"]:
-                    d = r["disagreements"][0]; rec["first_disagreement"] = {"ops": d["ops"][-2:], "impl": d["impl_out"][-1:], "model": d["model_out"][-1:]}; break
-    rec["wall_s"] = round(time.time() - t0)
-    open(outp, "a").write(json.dumps(rec) + "\n")
-    print(rec["id"], rec["verdict"], rec.get("violations"), rec.get("disagreements"), rec["wall_s"], flush=True)
-sh("git checkout -q .", cwd=repo)
+    for c in mu["checks"]:
+        rc, o = sh("bin/check %s" % c, cwd=verif, env={"VERIF_REPO": wt, "VERIF_NO_ESCALATE": "1"})
+        kinds = []
+        rp = os.path.join(verif, "replays", "%s-quick-1.txt" % c)
+        replay = ""
+        if os.path.exists(rp):
+            replay = open(rp).read()[:1500]
+            os.remove(rp)
+        m1 = re.search(r"violated on the implementation: (\S+)", replay)
+        summ = [l for l in o.splitlines() if re.match(r"^(VIOLATION|KNOWN|C1[345] quick|BROKEN)", l)]
+        build_fail = "harness build against" in o or "error[E" in o
+        status = ("compile-fail" if build_fail else
+                  "caught:" + m1.group(1) if m1 else
+                  "broken-only" if rc != 0 else "MISSED")
+        res["checks"][c] = {"rc": rc, "status": status, "summary": [s[:200] for s in summ][:4], "replay": replay[:900]}
+        print(mu["id"], c, status, "%.0fs" % (time.time() - t0), flush=True)
+    open(out, "a").write(json.dumps(res) + "\n")
+sh("git checkout -q .", cwd=wt)
